@@ -6,6 +6,8 @@ pub mod compare;
 pub mod conv;
 pub mod dynb;
 pub mod env;
+pub mod genrt;
 pub mod s1;
 
 pub use env::{Ek, Env, Event, EventLog};
+pub use genrt::StaticExec;
